@@ -2,7 +2,7 @@
 from tools.vlib import *
 
 PID = "C23"
-READY = False
+READY = True
 MANIFEST = {
     "level_text": "Lean 4 theorems about a model of Node's upload scheduler (handle_request, process_pending_uploads with pruning / "
                   "rotation / the can-accept and can-dispatch tests, dispatch_upload, note_upload_start/end, prune_stale_uploads, "
